@@ -1,7 +1,9 @@
 #!/usr/bin/env python3
 """Generates MANIFEST.json from the claims table (kept in one place so it stays valid)."""
-import json, os
+import json, os, sys
 HERE = os.path.dirname(os.path.abspath(__file__))
+sys.path.insert(0, HERE)
+from sa.props import PROPS
 
 CLAIMS = {
     'C17': dict(
@@ -123,8 +125,9 @@ def main():
             evidence_file=f"/verif/evidence/{pid}.json",
             replay_cmd_template=f"./check {pid} --replay {{path}}",
             engine="smolfacts+sa",
-            level_claimed=dict(category="other", text=c['text'], design_ref=c['design_ref']),
-            level_note=c['note'],
+            level_claimed=dict(category="other", text=PROPS[pid]['explanation'] + " | " + c['text'], design_ref=c['design_ref']),
+            level_note=c['note'] + " NOT decided: " + "; ".join(PROPS[pid]['not_decided']) + ".",
+
             technique=c['technique'],
         ))
     na = []
